@@ -48,6 +48,13 @@ type annRoute struct {
 	RD     string
 }
 
+// sentRec is one UPDATE this neighbour wrote to a session.
+type sentRec struct {
+	At   time.Duration
+	Sess int
+	Raw  []byte
+}
+
 type rxRec struct {
 	At   time.Duration
 	Type uint8
@@ -82,6 +89,10 @@ type simPeer struct {
 	kaTimes []time.Duration
 	passive bool // no keepalives / no reactions (used by fsm scripts)
 	grCapFams []string // families listed in the next GR capability (nil: as configured)
+	txOpen    []byte   // the OPEN this peer sent on the current session
+	rxOpenRaw []byte   // gobgp's OPEN as received on the current session (whole message)
+	sentLog   []sentRec // every UPDATE handed to the transport, in order (monitoring-record oracle)
+	sessEnd   map[int]time.Duration // session number -> instant this side saw it end
 
 	// hooks for family-specific monitors
 	onMsg func(p *simPeer, m *wMsg)
@@ -313,7 +324,11 @@ func (p *simPeer) handshake(b *simConn, restartBit bool) connectResult {
 		return connectResult{false, fmt.Sprintf("expected OPEN got %d", m.Type)}
 	}
 	p.w.probeOpenSeen(p, m)
-	if _, err := b.Write(p.buildOpen(restartBit)); err != nil {
+	txo := p.buildOpen(restartBit)
+	p.mu.Lock()
+	p.txOpen, p.rxOpenRaw = txo, append([]byte(nil), m.Raw...)
+	p.mu.Unlock()
+	if _, err := b.Write(txo); err != nil {
 		return connectResult{false, "write-open: " + err.Error()}
 	}
 	if _, err := b.Write(keepaliveBytes()); err != nil {
@@ -580,6 +595,10 @@ func (p *simPeer) sessionDown(b *simConn, sess int, why string, down chan struct
 		p.sent = map[viewKey]*annRoute{}
 	}
 	close(down)
+	if p.sessEnd == nil {
+		p.sessEnd = map[int]time.Duration{}
+	}
+	p.sessEnd[sess] = p.w.now()
 	p.mu.Unlock()
 	b.Close()
 	p.w.logf("p%d session %d down: %s", p.cfg.Idx, sess, why)
@@ -825,7 +844,20 @@ func (p *simPeer) write(b []byte) bool {
 		return false
 	}
 	_, err := c.Write(b)
+	if err == nil {
+		p.noteSent(b)
+	}
 	return err == nil
+}
+
+// noteSent records an UPDATE that the transport accepted.
+func (p *simPeer) noteSent(b []byte) {
+	if len(b) < 19 || b[18] != wUpdate {
+		return
+	}
+	p.mu.Lock()
+	p.sentLog = append(p.sentLog, sentRec{At: p.w.now(), Sess: p.sess, Raw: append([]byte(nil), b...)})
+	p.mu.Unlock()
 }
 
 // announce sends the route and, if the bytes were accepted by the transport, records it in the
@@ -845,6 +877,7 @@ func (p *simPeer) announce(r *annRoute) bool {
 	if _, err := c.Write(msg); err != nil {
 		return false
 	}
+	p.noteSent(msg)
 	p.mu.Lock()
 	if p.sess == sess && p.up {
 		pid := r.PathID
@@ -880,6 +913,7 @@ func (p *simPeer) withdraw(fam wFamily, prefix string, pathID uint32) bool {
 	if _, err := c.Write(msg); err != nil {
 		return false
 	}
+	p.noteSent(msg)
 	p.mu.Lock()
 	if p.sess == sess && p.up {
 		delete(p.sent, k)
